@@ -13,6 +13,7 @@ import BR.Model.Tm
 import BR.Model.Screw
 import BR.Model.Helpers
 import BR.Model.RRT
+import BR.Model.HeapOps
 
 namespace BR.Driver
 
@@ -323,6 +324,11 @@ def handleState (st : DState) (fn : String) (args : List String) : Option (DStat
         let (s', r, evs) := BR.Comms.step st.comms op
         some ({ st with comms := s' }, CommsIO.fmtRet r ++ "|" ++ ";".intercalate (evs.map CommsIO.fmtEv))
       | none => some (st, "bad-op")
+  | "heap.predict" => match args with
+      | [name] => match BR.HeapOps.predict name with
+        | some (nm, rf) => some (st, s!"{if nm then 0 else 1} {if rf then 0 else 1}")
+        | none => some (st, "unknown-op")
+      | _ => some (st, "bad-op")
   | "rrt.reset" => some ({ st with rrt := [BR.RRT.root] }, "ok")
   | "rrt.iter" =>
       -- rrt.iter <nearest> <dist0> <coll0> (<cand id> <dist> <collides>)*
